@@ -183,6 +183,7 @@ def worker_main(pid, shard, nshards, seed, tier, outpath):
               'samples': [], 'counters': {}, 'reach': {}, 'harness_errors': [],
               'skipped': {}, 'rule_checks': {}, 'tags': {}}
     try:
+        os.environ['VERIF_TIER'] = tier
         shim.setup()
         mod = load_prop(pid)
         reach = Reach()
